@@ -358,6 +358,36 @@ func c15Servers(c *Ctx) {
 	must(copyTree(vod, shared))
 	compare("shared-write", startServer(shared, shared, true), true)
 	compare("shared-load", startServer(shared, shared, false), true)
+	// ---- a damaged VoD tree: a representation that cannot be loaded must take its MPDs out of service, not leave them half-served ----
+	dv := filepath.Join(work, "vod-damaged")
+	must(os.MkdirAll(dv, 0o755))
+	for _, a := range []string{"testpic_2s", "gen_one"} {
+		if _, err := os.Stat(filepath.Join(vod, a)); err == nil {
+			must(copyTree(filepath.Join(vod, a), filepath.Join(dv, a)))
+		}
+	}
+	// the audio AdaptationSet of the generated MPDs comes after the video one: the video representation is already loaded
+	_ = os.WriteFile(filepath.Join(dv, "gen_one", "A1", "1.m4s"), []byte("\x00\x00\x00\x10moofxxxxxxxx"), 0o644)
+	if di := startServer(dv, "", false); di.err != nil {
+		viol("start", "server on a VoD tree with one unreadable segment does not start: "+di.err.Error(), "start vod-damaged", nil)
+	} else {
+		c.Count("servers")
+		for _, a := range di.assets {
+			if sa := findAsset(scan.assets, a.AssetPath); sa != nil && len(a.Reps) != len(sa.Reps) {
+				viol("partial-asset", fmt.Sprintf("vod-damaged: asset %s is served with %d of %d representations (MPDs %v still offered)", a.AssetPath, len(a.Reps), len(sa.Reps), a.MPDs), "start vod-damaged", nil)
+			}
+			for _, m := range a.MPDs {
+				u := fmt.Sprintf("/livesim2/%s/%s?nowMS=%d", a.AssetPath, m, a.LoopDurMS*3+1700)
+				got := getFrom(di.s, u)
+				if strings.HasPrefix(got, "PANIC") {
+					viol("partial-asset", "MPD of an asset with an unloadable representation is offered and crashes: "+got, "GET "+u, nil)
+				}
+				if strings.HasPrefix(got, "200") && want[u] != "" && got != want[u] {
+					viol("response-differs", "vod-damaged: "+got+" instead of "+want[u], "GET "+u, nil)
+				}
+			}
+		}
+	}
 	// ---- damaged caches ----
 	var files []string
 	for f := range d1 {
